@@ -2358,7 +2358,8 @@ class Slur(TimedObject):
             if note.start:
                 # add it to the start time of the new start note
                 note.start.add_starting_object(self)
-            note.slur_starts.append(self)
+            if not any(o is self for o in note.slur_starts):
+                note.slur_starts.append(self)
         self._start_note = note
 
     @property
@@ -2375,7 +2376,8 @@ class Slur(TimedObject):
             if note.end:
                 # add it to the end time of the new end note
                 note.end.add_ending_object(self)
-            note.slur_stops.append(self)
+            if not any(o is self for o in note.slur_stops):
+                note.slur_stops.append(self)
         self._end_note = note
 
     def __str__(self):
@@ -2438,7 +2440,8 @@ class Tuplet(TimedObject):
                     self.start_note.start.remove_starting_object(self)
             # else:
             #     warnings.warn('Note has no start time')
-            note.tuplet_starts.append(self)
+            if not any(o is self for o in note.tuplet_starts):
+                note.tuplet_starts.append(self)
         self._start_note = note
 
     @property
@@ -2455,7 +2458,8 @@ class Tuplet(TimedObject):
                     self.end_note.end.remove_ending_object(self)
             # else:
             #     warnings.warn('Note has no end time')
-            note.tuplet_stops.append(self)
+            if not any(o is self for o in note.tuplet_stops):
+                note.tuplet_stops.append(self)
         self._end_note = note
 
     @property
@@ -3888,7 +3892,10 @@ class ScoreVariant(object):
 
             # for each of the new objects, replace the references to the old
             # objects to their corresponding new objects
-            for o in o_new:
+            # notes first: their lists of slurs and tuplets are mapped to the
+            # copies before the copied slurs and tuplets register themselves
+            # with their new notes (o_new is a set, its order is arbitrary)
+            for o in sorted(o_new, key=lambda o: not isinstance(o, GenericNote)):
                 o.replace_refs(o_map)
 
         # replace prev/next references in timepoints
